@@ -84,6 +84,19 @@ def impl(case):
     n = C.mkarr(ns, shape2d, "ns:" + case["op"])
     e.setflags(write=False)
     n.setflags(write=False)
+    # history: block_split is a function of its arguments only; earlier calls in the same process (same region, the same NUMBER of blocks, other
+    # block sizes; another cloud) must leave no trace
+    import zlib
+    if zlib.crc32(("hist" + case["op"][:2000]).encode()) % 2 == 0:
+        try:
+            if spacing is not None:
+                sp_ = np.atleast_1d(spacing).astype(float) * 1.03125
+                vd.block_split((e, n), spacing=tuple(sp_) if sp_.size > 1 else float(sp_[0]), adjust="region", region=region, shape=None)
+                vd.block_split((e, n), spacing=tuple(sp_ / 1.0625) if sp_.size > 1 else float(sp_[0] / 1.0625), adjust="region", region=region, shape=None)
+            else:
+                vd.block_split((e * 0.5 + 1.0, n * 0.5 - 1.0), spacing=None, adjust=adjust, region=region, shape=shape)
+        except Exception:  # noqa: BLE001  (the warm-up arguments may be invalid; only the call under test counts)
+            pass
     r = C.call(vd.block_split, (e, n), spacing=spacing, adjust=adjust, region=region, shape=shape)
     if C.is_err(r):
         return r
